@@ -117,6 +117,20 @@ func CheckC16(e *fw.Env, l *Lab) {
 				ctx, _ := l.Base.CacheContext()
 				oc := run.Do(w, ctx, t, modC)
 				judge(oc, pair, dn, am, must)
+				// the balance precondition is what catches a disagreement between the orbiter's and
+				// ICS-20's reading of the amount; a fee paid to the orbiter account itself lowers
+				// the amount to forward without moving coins, so the adversary adds a self-fee equal
+				// to the difference between two readings of the amount string
+				if dn == prefix+world.USDC || dn == prefix+world.USDN {
+					for _, sf := range selfFees(am) {
+						ts := t
+						ts.Memo = (&spec.Spec{HasFee: true, Fees: []spec.Fee{{Recipient: OrbiterReceiver(), Amount: sf}}, Route: spec.Route{Kind: "internal", To: rcpt}}).Memo()
+						ctx, _ := l.Base.CacheContext()
+						os := run.Do(w, ctx, ts, modC)
+						judge(os, pair, dn, am, false)
+						e.Res.Sig("%s|self-fee|amt=%s|%s", pair.A, amtClass(am), outcomeClass(os))
+					}
+				}
 				ctx, _ = l.Base.CacheContext()
 				oh := run.Do(w, ctx, t, run.Mode{Kind: "H"})
 				judge(oh, pair, dn, am, must)
@@ -192,4 +206,27 @@ func amtClass(a string) string {
 		return "huge"
 	}
 	return "odd-spelling"
+}
+
+// selfFees returns the differences between plausible readings of an amount string (decimal,
+// Go base-prefixed/octal, digits only).
+func selfFees(am string) []string {
+	var vals []*big.Int
+	for _, base := range []int{10, 0, 8, 16} {
+		if v, ok := new(big.Int).SetString(strings.TrimSpace(am), base); ok && v.Sign() > 0 && v.BitLen() < 200 {
+			vals = append(vals, v)
+		}
+	}
+	seen := map[string]bool{}
+	var out []string
+	for _, a := range vals {
+		for _, b := range vals {
+			d := new(big.Int).Sub(a, b)
+			if d.Sign() > 0 && !seen[d.String()] {
+				seen[d.String()] = true
+				out = append(out, d.String())
+			}
+		}
+	}
+	return out
 }
